@@ -245,6 +245,30 @@ CHECKS = {
         design='5 (C13)',
         note='blob records are byte-identical, so undo never conflicts on a '
              'blob; redo of an undone creation is outside the alphabet'),
+    'C14': dict(
+        technique='bounded-exhaustive enumeration of object-graph inputs '
+                  '(node kinds x edge subsets x edge placements x add modes x '
+                  'oid shapes x reference formats), each stored and reloaded '
+                  'through the real serializer',
+        text='Every graph over a root and two new nodes of 3 (6) kinds '
+             '(plain, __getnewargs__, PersistentMapping, PersistentList, '
+             'class missing at load time, Blob), every subset of 6 edges incl. '
+             'cycles and self-loops with each edge placed directly / in a '
+             'list / in a dict in a tuple, unreachable nodes added explicitly '
+             'or not (47k graphs quick); families with weak, cross-database '
+             'and weak cross-database edges, oids forced to all-ASCII and '
+             'high-bit values, a savepoint rollback followed by re-attaching '
+             'the same objects, and hand-assembled protocol-1 records with '
+             'short-string oids in every reference format. Each graph is '
+             'committed on a real multi-database, then: stored iff reachable '
+             'from stored or added; no record contains another node\'s '
+             'state; referencesf(record) equals, as a list, the strong '
+             'same-database references that a wrapper around persistent_id '
+             'logged; a second connection loads an isomorphic graph with one '
+             'object per oid; legacy records load and survive a gc pack.',
+        design='6 (C14)',
+        note='three nodes incl. the root (four in the cyclic families); '
+             'Python-2 str oids only with bytes < 0x80'),
     'C19': dict(
         technique='explicit-state exploration of the real fsIndex over a '
                   '12-key alphabet, every query compared with a sorted dict',
